@@ -387,6 +387,16 @@ func checkBackoffCaps(c *Ctx, r *Report) {
 					out[k.Value.ExactString()] = true
 				}
 			}
+			// the same clamp spelled with the builtin: x = min(x, CAP)
+			if call, ok := in.(*ssa.Call); ok {
+				if bi, ok := call.Call.Value.(*ssa.Builtin); ok && bi.Name() == "min" {
+					for _, a := range call.Call.Args {
+						if k, ok := a.(*ssa.Const); ok && k.Value != nil {
+							out[k.Value.ExactString()] = true
+						}
+					}
+				}
+			}
 			if cc := getCall(in); cc != nil {
 				if sc := cc.StaticCallee(); sc != nil && sc.Pkg == f.Pkg && sc.Signature.Recv() == nil {
 					collect(sc, out, depth-1, seen)
@@ -473,7 +483,7 @@ func atomicFieldCall(in ssa.Instruction) (kind string, owner types.Type, fld *ty
 		return
 	}
 	ci := describeCall(cc)
-	if ci.Pkg == "sync/atomic" && ci.Recv == "" {
+	if ci.Pkg == "sync/atomic" { // atomic.AddInt64(&s.f, 1) and the typed form s.f.Add(1) alike: Args[0] is &s.f
 		o, f, isF := fieldOf(cc.Args[0])
 		if !isF {
 			return
@@ -546,7 +556,7 @@ func atomicWrapperOf(fn *ssa.Function) *atomicWrapper {
 		switch x := in.(type) {
 		case *ssa.Call:
 			ci := describeCall(&x.Call)
-			if ci.Pkg == "sync/atomic" && ci.Recv == "" && len(x.Call.Args) > 0 {
+			if ci.Pkg == "sync/atomic" && len(x.Call.Args) > 0 {
 				fa, isFA := x.Call.Args[0].(*ssa.FieldAddr)
 				if !isFA || fa.X != ssa.Value(fn.Params[0]) {
 					other = true
